@@ -691,7 +691,8 @@ Lemma vpres_find_backend_by_dialog e p : vpres (find_backend_by_dialog e p).
 Proof.
   apply vpres_mbind; [apply vpres_s_get_method|]. intros meth. destruct (_ && _)%bool; [apply vpres_mret|].
   apply vpres_mbind; [apply vpres_mtry, vpres_s_get_dialog|]. intros [d|]; [|apply vpres_mret].
-  destruct (pins_get (e_now e) d (ps_pins p)) as [pins1 ob].
+  destruct (pins_get (e_now e) d (ps_pins p)) as [pins1 ob]. cbv zeta.
+  destruct (_ && _)%bool; [apply vpres_mret|].
   apply vpres_mbind; [apply vpres_mtry, vpres_s_get_raw|]. intros ss. apply vpres_mret.
 Qed.
 Lemma vpres_handle_dialog e peer port p : vpres (handle_dialog e peer port p).
@@ -1199,7 +1200,7 @@ Fixpoint run (fx : fixes) (c : cfg) (st : state) (evs : list event) : list (list
                end
   end.
 Definition legacy_wiring : fixes :=
-  {| fx_wiring := false; fx_udp_via_listener := true; fx_indialog_invite := true; fx_bracket_host := true; fx_resolved_key := true |}.
+  {| fx_wiring := false; fx_udp_via_listener := true; fx_indialog_invite := true; fx_bracket_host := true; fx_resolved_key := true; fx_stale_pin := true |}.
 Definition rt := "Route: <sip:10.0.0.2:5070;lr>".
 Definition src := s2b "127.0.0.9".
 Definition hop := DUdp (s2b "10.0.0.2") 5070.
